@@ -31,7 +31,7 @@ from lxml.builder import E
 from spyne.protocol.soap.soap11 import Soap11
 from spyne.protocol.xml import _append
 from spyne.util.six import string_types
-from spyne.util.etreeconv import root_dict_to_etree
+from spyne.util.etreeconv import dict_to_etree
 from spyne.const.xml import NS_SOAP12_ENV, NS_XML, PREFMAP
 
 
@@ -120,8 +120,9 @@ class Soap12(Soap11):
             subelts[0] = code
 
         if isinstance(inst.detail, dict):
-            _append(subelts, E('{%s}Detail' % self.ns_soap_env,
-                                               root_dict_to_etree(inst.detail)))
+            detail = E('{%s}Detail' % self.ns_soap_env)
+            dict_to_etree(inst.detail, detail)
+            _append(subelts, detail)
 
         elif inst.detail is None:
             pass
